@@ -851,8 +851,16 @@ class ResultHandler(PoolThread):
         restart_state = self.restart_state
         on_job_ready = self.on_job_ready
 
+        # (job, part) -> pid of the worker that accepted it, until its
+        # result arrives: a result is credited to its sender even when the
+        # job has left the cache by then (failed, timed out or discarded).
+        accepted_by = self._accepted_by = {}
+
         def on_ack(job, i, time_accepted, pid, synqW_fd):
             restart_state.R = 0
+            accepted_by[(job, i)] = pid
+            while len(accepted_by) > 10000:
+                del accepted_by[next(iter(accepted_by))]
             try:
                 cache[job]._ack(i, time_accepted, pid, synqW_fd)
             except (KeyError, AttributeError):
@@ -862,17 +870,16 @@ class ResultHandler(PoolThread):
         def on_ready(job, i, obj, inqW_fd):
             if on_job_ready is not None:
                 on_job_ready(job, i, obj, inqW_fd)
+            worker_pid = accepted_by.pop((job, i), None)
+            # (.get: the supervisor thread removes reaped workers' counters)
+            on_ready_counter = self.on_ready_counters.get(worker_pid)
+            if on_ready_counter is not None:
+                with on_ready_counter.get_lock():
+                    on_ready_counter.value += 1
             try:
                 item = cache[job]
             except KeyError:
                 return
-
-            if self.on_ready_counters:
-                worker_pid = item._part_worker_pid(i)
-                if worker_pid and worker_pid in self.on_ready_counters:
-                    on_ready_counter = self.on_ready_counters[worker_pid]
-                    with on_ready_counter.get_lock():
-                        on_ready_counter.value += 1
 
             if not item.ready():
                 if putlock is not None:
